@@ -28,6 +28,7 @@ func stdFamilies(tier string) []family {
 			famPPromo2(true),
 			famPBlock(),
 			famPEPOwn([]int8{space.Q, space.R, space.B, space.N}, "PEP(own piece)"),
+			famPPromoOwn(8, "PPROMO(own piece on the push/capture squares)"),
 			famPDisc(),
 		}
 	}
@@ -38,6 +39,7 @@ func stdFamilies(tier string) []family {
 		famPPromo(),
 		famPBlock(),
 		famPEPOwn([]int8{space.R}, "PEP(own rook)"),
+		famPPromoOwn(4, "PPROMO(own piece on the push/capture squares, files a-d)"),
 	}
 }
 
